@@ -211,7 +211,8 @@ func sameOutcome(ok1 bool, e1 error, ok2 bool, e2 error) bool {
 
 // c16Inv: parts = the k constraints (each op+version) of the base range; tr describes the
 // transformation: "perm:2,0,1" | "dup:i" | "empty:i" (insert an empty constraint before index i,
-// i==k appends) | "ws:i:j" (insert the byte w before byte j of constraint i; j may equal its length).
+// i==k appends) | "ws:i:j" (insert the byte w before byte j of constraint i; j may equal its length) |
+// "dupws:i:j" (append a copy of constraint i with w inserted before its byte j).
 func c16Inv[V univers.Version[V], VR univers.VersionRange[V]](e univers.Ecosystem[V, VR], scheme, ops, v1, v2, v3, v4, probe, tr, w string) {
 	ol := strings.Split(ops, " ")
 	k := len(ol)
@@ -252,6 +253,11 @@ func c16Inv[V univers.Version[V], VR univers.VersionRange[V]](e univers.Ecosyste
 		i, j := atoi(f[1]), atoi(f[2])
 		tparts = append(tparts, parts...)
 		tparts[i] = parts[i][:j] + w + parts[i][j:]
+	case "dupws":
+		// a duplicate that is spelled with an insignificant space inside it
+		i, j := atoi(f[1]), atoi(f[2])
+		tparts = append(tparts, parts...)
+		tparts = append(tparts, parts[i][:j]+w+parts[i][j:])
 	}
 	other := "vers:" + scheme + "/" + strings.Join(tparts, "|")
 	ok1, e1 := vers.Contains(base, probe)
